@@ -31,6 +31,8 @@ func runC15(r *Report) {
 	r.Rule("C15/assert-ok", "no single-result type assertion on the generation path")
 	r.Rule("C15/panic-confined", "explicit panic() sites are reachable only through template method invocation, never by a plain Go call path from Generate/main")
 	r.Rule("C15/bounds", "every index/slice expression of the generator is proven by the compiler's prove pass or matches a checked idiom")
+	r.Rule("C15/error-reaches-exit", "every error returned on the path from a constructor to main is tested and propagated (packages goag, cmd/goag), so a failure cannot end in exit status 0")
+	r.Rule("C15/ref-value-phase", "while a self-referential component map is being filled (callbacks of NewMapRefSelf*), Ref[T].Value() of the same kind T is never called: entries that sort later are still empty and the call would dereference nil")
 	r.Rule("C15/exit-code", "cmd/goag main: a non-nil error from Generate* ends in log.Fatal*/os.Exit(!=0)")
 	r.Assumptions = append(r.Assumptions,
 		"after a successful load, a non-nil *Ref wrapper has a non-nil Value (kin-openapi resolves references)",
@@ -56,6 +58,8 @@ func runC15(r *Report) {
 	c.panicConfined()
 	c.bounds()
 	c.exitCode()
+	errPropagation(r, s, "C15/error-reaches-exit")
+	c.refValuePhase()
 }
 
 func fnPkg(fn *ssa.Function) *ssa.Package {
@@ -905,4 +909,93 @@ func isSplitResult(info *types.Info, fd *ast.FuncDecl, e ast.Expr) bool {
 		return true
 	})
 	return good && n == 1
+}
+
+// refValuePhase: typestate rule for the self-referential component maps.
+func (c *c15) refValuePhase() {
+	nSites := 0
+	for _, fn := range c.fns {
+		for _, b := range fn.Blocks {
+			for _, ins := range b.Instrs {
+				call, ok := ins.(*ssa.Call)
+				if !ok {
+					continue
+				}
+				sc := call.Call.StaticCallee()
+				if sc == nil || sc.Origin() == nil {
+					continue
+				}
+				on := sc.Origin().Name()
+				if on != "NewMapRefSelfSource" && on != "NewMapRefSelf" {
+					continue
+				}
+				targs := sc.TypeArgs()
+				if len(targs) == 0 {
+					continue
+				}
+				T := targs[0]
+				// the callback argument
+				var cb *ssa.Function
+				for _, a := range call.Call.Args {
+					switch x := a.(type) {
+					case *ssa.MakeClosure:
+						cb, _ = x.Fn.(*ssa.Function)
+					case *ssa.Function:
+						cb = x
+					}
+				}
+				if cb == nil {
+					continue
+				}
+				nSites++
+				key := shortFn(fn) + ":" + on + "[" + strings.TrimPrefix(T.String(), modPath+"/") + "]"
+				reach := c.s.closure([]*ssa.Function{cb})
+				bad := ""
+				for f := range reach {
+					pk := fnPkg(f)
+					if pk == nil || !isRepoPkg(pk.Pkg.Path()) || f.Blocks == nil {
+						continue
+					}
+					for _, bb := range f.Blocks {
+						for _, i2 := range bb.Instrs {
+							c2, ok := i2.(*ssa.Call)
+							if !ok {
+								continue
+							}
+							cc := c2.Call
+							if cc.IsInvoke() {
+								if cc.Method.Name() == "Value" && refOfKind(cc.Value.Type(), T) {
+									bad = shortFn(f) + " at " + c.s.pos(c2.Pos())
+								}
+							} else if s2 := cc.StaticCallee(); s2 != nil && s2.Name() == "Value" && s2.Signature.Recv() != nil && refOfKind(s2.Signature.Recv().Type(), T) {
+								bad = shortFn(f) + " at " + c.s.pos(c2.Pos())
+							}
+						}
+					}
+				}
+				if bad == "" {
+					c.r.OK("C15/ref-value-phase", key, c.s.pos(call.Pos()), fmt.Sprintf("%d functions reachable from the callback", len(reach)))
+				} else {
+					c.r.Violation("C15/ref-value-phase", key, c.s.pos(call.Pos()), "Value() of a reference of the kind under construction is called while the component map is being filled ("+bad+"): for a component that refers to one sorting after it the target is still nil and the generator panics")
+				}
+			}
+		}
+	}
+	c.r.FloorMin("self-referential component map constructions", nSites, 5)
+}
+
+// refOfKind: t is Ref[T] / *refObject[T] for the given T.
+func refOfKind(t types.Type, T types.Type) bool {
+	if p, ok := t.(*types.Pointer); ok {
+		t = p.Elem()
+	}
+	n, ok := t.(*types.Named)
+	if !ok || n.Obj().Pkg() == nil || n.Obj().Pkg().Path() != modPath+"/specification" {
+		return false
+	}
+	if n.Obj().Name() != "Ref" && n.Obj().Name() != "refObject" {
+		return false
+	}
+	ta := n.TypeArgs()
+	return ta != nil && ta.Len() == 1 && types.Identical(ta.At(0), T)
 }
